@@ -27,23 +27,29 @@ def run(pid, tier):
     work = vlib.scratch(pid)
     model = Model()
     try:
-        consts = "EB = %d\nMB = %d\nReduced = {2, 3, 4}\nCarryHandled = %s"
+        consts = "EB = %d\nMB = %d\nReduced = {2, 3, 4}\nCarryHandled = %s\nDB = 2\nSpanAfterRounding = %s"
         eb, mb_ = (3, 6) if tier == "quick" else (4, 8)
         cfg = os.path.join(work, "FloatModel.cfg")
         with open(cfg, "w") as f:
-            f.write("SPECIFICATION Spec\nCONSTANTS\n%s\nINVARIANT Contract\nCHECK_DEADLOCK FALSE\n" % (consts % (eb, mb_, "TRUE")))
+            f.write("SPECIFICATION Spec\nCONSTANTS\n%s\nINVARIANT Contract\nINVARIANT ArrayContract\nCHECK_DEADLOCK FALSE\n" % (consts % (eb, mb_, "TRUE", "TRUE")))
         r = vlib.tlc_or_broken("FloatModel.tla", cfg, workers=vlib.NCPU, xmx="4g")
         model.add("FloatModel[EB=%d,MB=%d]" % (eb, mb_), r)
         classes_txt = sorted({re.sub(r'[<>",]', "", m.group(0)).strip()
-                              for m in re.finditer(r'<<"FCLASS", \d, -?\d+, "\w+">>|<<"FSPECIAL", "\w+">>', r["out"])})
+                              for m in re.finditer(r'<<"FCLASS", \d, -?\d+, "\w+">>|<<"FSPECIAL", "\w+">>|<<"FSPAN", -?\d+, \d+, "\w+", "\w+">>', r["out"])})
         if len(classes_txt) < 100:
             raise Broken("FloatModel printed too few value classes (%d)" % len(classes_txt))
         with open(cfg, "w") as f:
-            f.write("SPECIFICATION Spec\nCONSTANTS\n%s\nINVARIANT Contract\nCHECK_DEADLOCK FALSE\n" % (consts % (3, 6, "FALSE")))
+            f.write("SPECIFICATION Spec\nCONSTANTS\n%s\nINVARIANT Contract\nCHECK_DEADLOCK FALSE\n" % (consts % (3, 6, "FALSE", "TRUE")))
         rn = vlib.tlc("FloatModel.tla", cfg, workers=4, xmx="2g")
         area_mem.clean_ttrace()
         if "Invariant Contract is violated" not in rn["out"]:
             raise Broken("FloatModel negative control (carry dropped) found no counterexample")
+        with open(cfg, "w") as f:
+            f.write("SPECIFICATION Spec\nCONSTANTS\n%s\nINVARIANT ArrayContract\nCHECK_DEADLOCK FALSE\n" % (consts % (3, 6, "TRUE", "FALSE")))
+        rn = vlib.tlc("FloatModel.tla", cfg, workers=4, xmx="2g")
+        area_mem.clean_ttrace()
+        if "Invariant ArrayContract is violated" not in rn["out"]:
+            raise Broken("FloatModel negative control (span measured before rounding) found no counterexample")
         path = os.path.join(work, "classes.txt")
         with open(path, "w") as f:
             f.write("\n".join(classes_txt) + "\n")
